@@ -4,7 +4,8 @@ from props.util import *
 
 TRUSTED = BASE_TRUSTED + ["ristretto under the group-law hypothesis (implementation-only runs)"]
 RULE = ("all subsets S of {1..n} (n<=6 quick / 8 thorough) with |S| >= t, in EVERY listing order for |S|<=3 (quick) / 4 and "
-        "rotations+reversal above, t from 1 to |S|, on p=2039 and the 62-bit set (n<=12 sampled at 62 bits, a handful at 2048): "
+        "rotations+reversal above, t from 1 to |S|, on p=2039 and the 62-bit set (n<=12 sampled at 62 bits, a handful at 2048), plus high "
+        "trustee numbers with high thresholds (n = 12, 17, 20 with t = 10..20; 40 thorough) where trustee^(t-1) exceeds 2^32 and 2^64: "
         "lagrange, eval_poly, threshold::decryption_factor compared with the Gallina model; battery on implementation outputs: "
         "sum_i lambda_i P(i) = P(0) mod q, the combined factors decrypt the ciphertext, |S| = t-1 does not (62-bit and up)")
 
@@ -39,6 +40,18 @@ def run(env):
                     n = r.randrange(2, 13); size = r.randrange(1, n + 1)
                     S = r.sample(range(1, n + 1), size)
                     plans.append((ctx, S, r.randrange(1, size + 1)))
+        # high trustee numbers with high thresholds: (trustee)^(t-1) crosses 2^32 from (12, 10) / (11, 11) on and 2^64 from
+        # (17, 17) / (20, 16) on — the regime where a machine-integer power in eval_poly / lagrange would wrap
+        for pstr in ("2039", str(P62)):
+            ctx = "%s:%s" % (fl, pstr)
+            plans.append((ctx, list(range(3, 13)), 10))
+            plans.append((ctx, list(range(12, 0, -1)), 12))
+            plans.append((ctx, list(range(2, 13)), 11))
+            plans.append((ctx, list(range(1, 18)), 17))
+            plans.append((ctx, [20, 19, 18] + list(range(1, 18)), 20))
+            if not env.quick:
+                plans.append((ctx, r.sample(range(1, 41), 25), 25))
+                plans.append((ctx, list(range(40, 0, -1)), 40))
         ctx = "%s:2048" % fl
         plans.append((ctx, [3, 1], 2))
         if not env.quick:
@@ -132,7 +145,7 @@ def run(env):
     fails = env.tie(items, "C10", shard=300)
     # ristretto
     L = 2 ** 252 + 27742317777372353535851937790883648493
-    for S, t in (([1, 2, 3], 3), ([4, 2], 2), ([5, 1, 3, 2], 3)):
+    for S, t in (([1, 2, 3], 3), ([4, 2], 2), ([5, 1, 3, 2], 3), (list(range(12, 0, -1)), 12), ([20, 19, 18] + list(range(1, 18)), 20)):
         coeffs = [str(r.randrange(L)) for _ in range(t)]
         o = env.harness([{"ctx": "R", "op": "lagrange", "args": [str(i), [str(x) for x in S]], "tag": "ristretto"} for i in S] +
                         [{"ctx": "R", "op": "eval_poly", "args": [str(i), str(t), coeffs], "tag": "ristretto"} for i in S])
